@@ -81,6 +81,27 @@ func c14Sweep(c *Ctx) {
 		return typeTag(ta.AssertedType), k, ok
 	}
 	ki := func(k int64) string { return strconv.FormatInt(k, 10) }
+	// lin: v = a + b·L with L = len(args) (defined below)
+	var lin func(st *ConcState, v ssa.Value, d int) (a, b int64, ok bool)
+	// argFromEnd: v is (a load of) args[len(args)+a] with a < 0
+	argFromEnd := func(st *ConcState, v ssa.Value) (int64, bool) {
+		v = resolve(st, v)
+		if mi, ok := v.(*ssa.MakeInterface); ok {
+			v = resolve(st, mi.X)
+		}
+		u, ok := v.(*ssa.UnOp)
+		if !ok || u.Op != token.MUL {
+			return 0, false
+		}
+		ia, ok := u.X.(*ssa.IndexAddr)
+		if !ok || resolve(st, ia.X) != ssa.Value(args) {
+			return 0, false
+		}
+		if a, b, ok := lin(st, ia.Index, 0); ok && b == 1 && a < 0 {
+			return a, true
+		}
+		return 0, false
+	}
 	classifyField := func(st *ConcState, e ssa.Value) string {
 		if t, k, ok := assertOf(st, e); ok && t == "Field" {
 			return "F(" + ki(k) + ")"
@@ -89,6 +110,10 @@ func c14Sweep(c *Ctx) {
 		if cl, ok := r.(*ssa.Call); ok {
 			switch {
 			case IsCallTo(cl, "go.uber.org/zap.Error") && len(cl.Call.Args) == 1:
+				// an error that was set aside in a list during the sweep: described when it was put there
+				if tg := st.TagOf(cl.Call.Args[0]); strings.HasPrefix(tg, "E(") {
+					return tg
+				}
 				if t, k, ok := assertOf(st, cl.Call.Args[0]); ok && t == "error" {
 					return "E(" + ki(k) + ")"
 				}
@@ -101,6 +126,11 @@ func c14Sweep(c *Ctx) {
 				if s, isC := ConstString(resolve(st, cl.Call.Args[0])); isC && ok2 {
 					return "Any(" + strconv.Quote(s) + "," + ki(k2) + ")"
 				}
+				if s, isC := ConstString(resolve(st, cl.Call.Args[0])); isC {
+					if a, okE := argFromEnd(st, cl.Call.Args[1]); okE {
+						return "Any(" + strconv.Quote(s) + ",L" + ki(a) + ")"
+					}
+				}
 			case IsCallTo(cl, "go.uber.org/zap.Array") && len(cl.Call.Args) == 2:
 				if s, isC := ConstString(resolve(st, cl.Call.Args[0])); isC {
 					return "Array(" + strconv.Quote(s) + ")"
@@ -109,8 +139,6 @@ func c14Sweep(c *Ctx) {
 		}
 		return "other(" + st.Desc(e) + ")"
 	}
-	// lin: v = a + b·L with L = len(args)
-	var lin func(st *ConcState, v ssa.Value, d int) (a, b int64, ok bool)
 	lin = func(st *ConcState, v ssa.Value, d int) (int64, int64, bool) {
 		if k, known := st.Int(v); known {
 			return k, 0, true
@@ -149,9 +177,23 @@ func c14Sweep(c *Ctx) {
 		sl, ok := types.Unalias(t).Underlying().(*types.Slice)
 		return ok && typeTag(sl.Elem()) == "Field"
 	}
+	isErrSlice := func(t types.Type) bool {
+		sl, ok := types.Unalias(t).Underlying().(*types.Slice)
+		return ok && sl.Elem().String() == "error"
+	}
 	cut := 0
 	seqs, trunc := ConcPaths(fn, ConcCfg{
 		MaxIter: depth(3, 4), Cut: &cut, MaxStates: 2000000,
+		// a bare error set aside for later: which argument it is, said while the loop variable still points at it
+		ElemTag: func(st *ConcState, v ssa.Value) string {
+			if v.Type().String() != "error" {
+				return ""
+			}
+			if t, k, ok := assertOf(st, v); ok && t == "error" {
+				return "E(" + ki(k) + ")"
+			}
+			return ""
+		},
 		Inline: func(h *ssa.Function) bool {
 			// the logger's own Error method is an effect, not part of the sweep
 			return h.Pkg != nil && h.Pkg.Pkg.Path() == ZapPath && !strings.HasPrefix(FStr(h), "(*go.uber.org/zap.Logger).") &&
@@ -164,6 +206,10 @@ func c14Sweep(c *Ctx) {
 					if ia, ok := x.X.(*ssa.IndexAddr); ok && resolve(st, ia.X) == ssa.Value(args) {
 						if k, known := st.Int(ia.Index); known {
 							return "rd(" + ki(k) + ")"
+						}
+						// the last argument, by its distance from the end: args[len(args)-1]
+						if a, b, ok := lin(st, ia.Index, 0); ok && b == 1 && a < 0 {
+							return "rd(L" + ki(a) + ")"
 						}
 						return "rd(?" + st.Desc(ia.Index) + ")"
 					}
@@ -187,6 +233,19 @@ func c14Sweep(c *Ctx) {
 							return "fields+(?" + st.Desc(x.Call.Args[1]) + ")"
 						}
 						return "fields+" + strings.Join(out, "+")
+					case isErrSlice(x.Type()):
+						var out []string
+						for _, e := range elems {
+							if t, k, ok := assertOf(st, e); ok && t == "error" {
+								out = append(out, "E("+ki(k)+")")
+							} else {
+								out = append(out, "other("+st.Desc(e)+")")
+							}
+						}
+						if len(elems) == 0 {
+							return ""
+						}
+						return "errs+" + strings.Join(out, "+")
 					case isInvalidSlice(x.Type()):
 						var out []string
 						for _, e := range elems {
@@ -367,6 +426,20 @@ func c14Sweep(c *Ctx) {
 		lo, hi := int64(0), inf
 		p := int64(0)
 		seenErr, nInvalid, reported, ended := false, 0, false, false
+		var setAside []int64 // bare errors recorded during the sweep, to be reported after it
+		danglingPending := false
+		// fromEnd: "L-1" → the index it denotes, once the length is known exactly
+		fromEnd := func(s string) (int64, bool) {
+			if !strings.HasPrefix(s, "L-") {
+				return 0, false
+			}
+			a, err := strconv.ParseInt(s[1:], 10, 64)
+			if err != nil || lo != hi {
+				return 0, false
+			}
+			return hi + a, true
+		}
+		_ = danglingPending
 		facts := map[string]int{} // "Field@3" → 1 / -1
 		infeasible := false
 		var bad []viol
@@ -446,6 +519,30 @@ func c14Sweep(c *Ctx) {
 				}
 				if lo > hi {
 					infeasible = true
+				}
+			case strings.HasPrefix(t, "rd(L"):
+				k, ok := fromEnd(strings.TrimSuffix(t[3:], ")"))
+				if !ok {
+					fail("bounds", "args read at a distance from the end while the length is not known exactly: "+t)
+					break
+				}
+				needLen(k, "args["+ki(k)+"] is read")
+			case strings.HasPrefix(t, "errs+"):
+				for _, e := range strings.Split(t[len("errs+"):], "+") {
+					if !strings.HasPrefix(e, "E(") {
+						fail("representation", "something other than a bare error argument is set aside as an additional error: "+e)
+						continue
+					}
+					ks := parseInts(e[2 : len(e)-1])
+					if len(ks) == 1 && consume(ks[0], 1, "args["+ki(ks[0])+"] is set aside as an additional error") {
+						if fact("error", ks[0]) != 1 {
+							fail("representation", "set aside as an error without the type test having succeeded")
+						}
+						if !seenErr {
+							fail("first-error-only", "the first bare error is only reported, not added as the entry's error field")
+						}
+						setAside = append(setAside, ks[0])
+					}
 				}
 			case strings.HasPrefix(t, "rd("):
 				k, err := strconv.ParseInt(strings.TrimSuffix(t[3:], ")"), 10, 64)
@@ -548,6 +645,16 @@ func c14Sweep(c *Ctx) {
 				f := strings.SplitN(t, ":", 4)
 				lvl, payload := f[1], f[3]
 				switch {
+				case strings.HasPrefix(payload, "E(") && len(setAside) > 0:
+					// one of the errors set aside during the sweep, reported now: in the order they were found
+					ks := parseInts(payload[2 : len(payload)-1])
+					if len(ks) != 1 || ks[0] != setAside[0] {
+						fail("accounted", "the errors set aside are not reported in the order they were found: "+payload+" while args["+ki(setAside[0])+"] is due")
+					}
+					setAside = setAside[1:]
+					if lvl != "Error" {
+						fail("accounted", "the additional error is reported at level "+lvl+" (must be Error)")
+					}
 				case strings.HasPrefix(payload, "E("):
 					ks := parseInts(payload[2 : len(payload)-1])
 					if len(ks) == 1 && consume(ks[0], 1, "args["+ki(ks[0])+"] is reported as an additional error") {
@@ -562,7 +669,11 @@ func c14Sweep(c *Ctx) {
 						}
 					}
 				case strings.HasPrefix(payload, "Any(\"ignored\","):
-					ks := parseInts(strings.TrimSuffix(strings.TrimPrefix(payload, "Any(\"ignored\","), ")"))
+					inner := strings.TrimSuffix(strings.TrimPrefix(payload, "Any(\"ignored\","), ")")
+					ks := parseInts(inner)
+					if k, ok := fromEnd(inner); ok {
+						ks = []int64{k}
+					}
 					if len(ks) == 1 {
 						k := ks[0]
 						if ended || k != p {
@@ -600,6 +711,9 @@ func c14Sweep(c *Ctx) {
 				}
 				if nInvalid > 0 && !reported {
 					fail("accounted", "invalid pairs were recorded but are not reported before returning")
+				}
+				if len(setAside) > 0 {
+					fail("accounted", "args["+ki(setAside[0])+"] was set aside as an additional error but is not reported before returning")
 				}
 				if t != "ret(fields)" {
 					fail("accounted", "the accumulated fields are not what is returned: "+t)
